@@ -1127,6 +1127,9 @@ class Exec:
         inv.events = list(st0.events) + ['... %s iterations (by induction: counters %s, one element of %s per iteration) ...' % (
             K, sorted({str(d) for d in deltas.values()}), sorted(a.name for a in ledger_t))]
         s.discharged.append(('loop invariant template instantiated', where))
+        # vacuity guard: the hypothesis must be satisfiable for a non-zero number of iterations
+        if not s.feasible(inv, UGE(K, bv(1))):
+            return None
         tmpl = {'K': K, 'deltas': deltas, 'v0': v0, 'dv': dv, 'ledger': ledger_t, 'st0': st0, 'in_range': in_range}
         return inv, tmpl
 
